@@ -178,12 +178,11 @@ Lemma call_items_ok : forall m params mo ow up,
   Forall item_ok (call_items m params mo ow up).
 Proof.
   intros m params mo ow up Hp. unfold call_items.
-  repeat apply Forall_app; repeat split.
-  - constructor; [apply txt_ok_string|constructor].
-  - destruct params; constructor; [exact Hp|constructor].
-  - destruct mo; constructor; [apply txt_ok_true|constructor].
-  - destruct ow; constructor; [apply txt_ok_true|constructor].
-  - destruct up; constructor; [apply txt_ok_true|constructor].
+  apply Forall_app; split; [constructor; [apply txt_ok_string|constructor]|].
+  apply Forall_app; split; [destruct params; constructor; [exact Hp|constructor]|].
+  apply Forall_app; split; [destruct mo; constructor; [apply txt_ok_true|constructor]|].
+  apply Forall_app; split; [destruct ow; constructor; [apply txt_ok_true|constructor]|].
+  destruct up; constructor; [apply txt_ok_true|constructor].
 Qed.
 
 Ltac inv_recs :=
@@ -196,11 +195,22 @@ Ltac inv_recs :=
   | H : Forall2 item_rec [] _ |- _ => inversion H; subst; clear H
   end.
 
-Ltac dm_steps :=
-  repeat first
-    [ rewrite (dm_string _ _ _ _ _ _ _ _ _ _ eq_refl eq_refl)
-    | rewrite (dm_bool _ _ _ _ _ _ _ _ _ _ eq_refl eq_refl)
-    | erewrite (dm_raw _ _ _ _ _ _ _ _ _ _ eq_refl eq_refl) by eassumption ].
+Ltac dm_step :=
+  match goal with
+  | |- context [decode_members ?sch ((?rk, ?v, ?s0, ?s1) :: ?r) ?cur ?err] =>
+    let key := eval vm_compute in (unquote rk) in
+    let ff := eval vm_compute in (find_field key sch) in
+    match ff with
+    | Some (?i, KString) =>
+      match v with VStr ?raw =>
+        rewrite (dm_string sch rk raw s0 s1 r cur err key i) by (vm_compute; reflexivity) end
+    | Some (?i, KBool) =>
+      match v with VBool ?b0 =>
+        rewrite (dm_bool sch rk b0 s0 s1 r cur err key i) by (vm_compute; reflexivity) end
+    | Some (?i, KRaw) =>
+      rewrite (dm_raw sch rk v s0 s1 r cur err key i) by first [assumption | vm_compute; reflexivity]
+    end
+  end.
 
 Theorem decode_encode_call : forall m p mo ow up, utf8_valid m = true -> raw_ok p ->
   decode_call (encode_call m (Some p) mo ow up) = Some (mkCall m (Some p) mo ow up).
@@ -209,7 +219,141 @@ Proof.
   destruct (jparse_items (call_items m (Some p) mo ow up)) as [recs [Hj HF]];
     [discriminate|apply call_items_ok; exact Hp|].
   unfold decode_call, decode_struct, decode_struct_full. rewrite Hj.
-  destruct mo, ow, up; cbn [call_items app] in HF; inv_recs; dm_steps.
-  all: cbn [decode_members]. all: cbn. all: rewrite unquote_enc_str by exact Hm.
-  all: try reflexivity.
+  destruct mo, ow, up; cbn [call_items app] in HF; inv_recs; repeat dm_step.
+  all: cbn [decode_members map call_schema snd zero_of set_nth].
+  all: rewrite unquote_enc_str by exact Hm.
+  all: reflexivity.
 Qed.
+
+Theorem decode_encode_call_noparams : forall m mo ow up, utf8_valid m = true ->
+  decode_call (encode_call m None mo ow up) = Some (mkCall m None mo ow up).
+Proof.
+  intros m mo ow up Hm. rewrite encode_call_items.
+  destruct (jparse_items (call_items m None mo ow up)) as [recs [Hj HF]];
+    [discriminate|apply call_items_ok; exact I|].
+  unfold decode_call, decode_struct, decode_struct_full. rewrite Hj.
+  destruct mo, ow, up; cbn [call_items app] in HF; inv_recs; repeat dm_step.
+  all: cbn [decode_members map call_schema snd zero_of set_nth].
+  all: rewrite unquote_enc_str by exact Hm.
+  all: reflexivity.
+Qed.
+
+(* the handler sees the client's parameter bytes, and they parse back to the value marshalled *)
+Corollary decode_encode_call_value : forall m v mo ow up, utf8_valid m = true ->
+  wf_value v = true -> v <> JNull -> depth v + 1 <= 10000 ->
+  decode_call (encode_call m (Some (encode_value v)) mo ow up) = Some (mkCall m (Some (encode_value v)) mo ow up)
+  /\ parse (encode_value v) = Some v.
+Proof.
+  intros m v mo ow up Hm Hwf Hn Hd. split.
+  - apply decode_encode_call; [exact Hm|apply raw_ok_encode; assumption].
+  - apply parse_encode; [exact Hwf|lia].
+Qed.
+
+Print Assumptions decode_encode_call.
+Print Assumptions decode_encode_call_noparams.
+Print Assumptions decode_encode_call_value.
+
+(* ================= replies ================= *)
+
+Definition reply_items (params : option bytes) (cont : bool) (err : bytes) : list item :=
+  (match params with Some p => [it_raw s_parameters p] | None => [] end)
+  ++ (if cont then [it_true s_continues] else [])
+  ++ (match err with [] => [] | _ => [it_string s_error err] end).
+
+Lemma encode_reply_items : forall params cont err,
+  encode_reply params cont err = [123] ++ join_members (map item_txt (reply_items params cont err)) ++ [125].
+Proof. intros [p|] [|] [|e0 err]; reflexivity. Qed.
+
+Lemma reply_items_ok : forall params cont err,
+  match params with Some p => raw_ok p | None => True end ->
+  Forall item_ok (reply_items params cont err).
+Proof.
+  intros params cont err Hp. unfold reply_items.
+  apply Forall_app; split; [destruct params; constructor; [exact Hp|constructor]|].
+  apply Forall_app; split; [destruct cont; constructor; [apply txt_ok_true|constructor]|].
+  destruct err; constructor; [apply txt_ok_string|constructor].
+Qed.
+
+Theorem decode_encode_reply_gen : forall params cont err, utf8_valid err = true ->
+  match params with Some p => raw_ok p | None => True end ->
+  decode_struct reply_schema (encode_reply params cont err) = Some [FRaw params; FBool cont; FString err].
+Proof.
+  intros params cont err He Hp.
+  destruct (reply_items params cont err) as [|it0 its0] eqn:Eits.
+  { destruct params, cont, err; try discriminate Eits. reflexivity. }
+  rewrite encode_reply_items.
+  destruct (jparse_items (reply_items params cont err)) as [recs [Hj HF]];
+    [rewrite Eits; discriminate|apply reply_items_ok; exact Hp|].
+  clear Eits. unfold decode_struct, decode_struct_full. rewrite Hj.
+  destruct params as [p|], cont, err as [|e0 err]; cbn [reply_items app] in HF; inv_recs; repeat dm_step.
+  all: cbn [decode_members map reply_schema snd zero_of set_nth].
+  all: rewrite ?unquote_enc_str by exact He.
+  all: reflexivity.
+Qed.
+
+Theorem decode_encode_reply : forall p cont err, utf8_valid err = true -> raw_ok p ->
+  decode_struct reply_schema (encode_reply (Some p) cont err) = Some [FRaw (Some p); FBool cont; FString err].
+Proof. intros p cont err He Hp. apply (decode_encode_reply_gen (Some p) cont err He Hp). Qed.
+
+Print Assumptions decode_encode_reply_gen.
+Print Assumptions decode_encode_reply.
+
+(* ================= why "not null" is needed ================= *)
+
+(* a parameters member whose text is the literal null is decoded as an absent
+   member (Go resets a *json.RawMessage to nil on null) *)
+Example null_params_lost :
+  decode_call (encode_call [97; 46; 98] (Some lit_null) false false false)
+  = Some (mkCall [97; 46; 98] None false false false).
+Proof. vm_compute. reflexivity. Qed.
+Example null_reply_params_lost :
+  decode_struct reply_schema (encode_reply (Some lit_null) false [])
+  = Some [FRaw None; FBool false; FString []].
+Proof. vm_compute. reflexivity. Qed.
+
+(* ================= what json.Marshal of a value tree produces is raw_ok ================= *)
+
+Fixpoint strs_ok (v : jvalue) : bool :=
+  match v with
+  | JStr s => utf8_valid s
+  | JArr l => forallb strs_ok l
+  | JObj m => forallb (fun kv => utf8_valid (fst kv) && strs_ok (snd kv)) m
+  | _ => true
+  end.
+
+Lemma wf_norm : forall v, nums_ok v = true -> strs_ok v = true -> wf_value (norm_nums v) = true.
+Proof.
+  induction v as [|b0|t|s|l IHl|m IHm] using jvalue_ind'; intros Hn Hs; try reflexivity.
+  - destruct t as [|c t]; [reflexivity|exact Hn].
+  - exact Hs.
+  - cbn [norm_nums wf_value]. cbn [nums_ok strs_ok] in Hn, Hs.
+    rewrite forallb_forall in Hn, Hs. rewrite Forall_forall in IHl.
+    apply forallb_forall. intros y Hy. apply in_map_iff in Hy. destruct Hy as [x [<- Hx]].
+    apply IHl; [exact Hx|apply Hn; exact Hx|apply Hs; exact Hx].
+  - cbn [norm_nums wf_value]. cbn [nums_ok strs_ok] in Hn, Hs.
+    rewrite forallb_forall in Hn, Hs. rewrite Forall_forall in IHm.
+    apply forallb_forall. intros y Hy. apply in_map_iff in Hy. destruct Hy as [x [<- Hx]].
+    cbn [fst snd]. specialize (Hs x Hx). apply andb_true_iff in Hs. destruct Hs as [Hk Hs].
+    rewrite Hk. cbn [andb]. apply IHm; [exact Hx|apply Hn; exact Hx|exact Hs].
+Qed.
+
+Lemma depth_norm : forall v, depth (norm_nums v) = depth v.
+Proof.
+  induction v as [|b0|t|s|l IHl|m IHm] using jvalue_ind'; try reflexivity.
+  - destruct t; reflexivity.
+  - cbn [norm_nums depth]. f_equal. induction IHl as [|x l Hx _ IH]; [reflexivity|].
+    cbn [map fold_right]. rewrite Hx, IH. reflexivity.
+  - cbn [norm_nums depth]. f_equal. induction IHm as [|x m Hx _ IH]; [reflexivity|].
+    cbn [map fold_right snd]. rewrite Hx, IH. reflexivity.
+Qed.
+
+Theorem marshal_raw_ok : forall v p, marshal_value v = Some p -> strs_ok v = true ->
+  v <> JNull -> depth v + 1 <= 10000 -> raw_ok p /\ parse p = Some (norm_nums v).
+Proof.
+  unfold marshal_value. intros v p H Hs Hn Hd. destruct (nums_ok v) eqn:En; [|discriminate].
+  injection H as <-. pose proof (wf_norm v En Hs) as Hwf. split.
+  - apply raw_ok_encode; [exact Hwf| |rewrite depth_norm; exact Hd].
+    destruct v; try discriminate; [congruence|]. destruct tok; discriminate.
+  - apply parse_encode; [exact Hwf|rewrite depth_norm; lia].
+Qed.
+Print Assumptions marshal_raw_ok.
